@@ -155,6 +155,30 @@ func (w *World) resolveContractKey(c *Contract, pkg string, imports map[string]s
 		// package-local function or method
 		fn := w.P.lookupFunc(pkg, key)
 		if fn == nil {
+			// a package-level function variable (var deny = func(...) ...): the contract is attached to
+			// the variable; the function literal the initialiser stores into it is what gets verified
+			if pk := w.P.SSA.ImportedPackage(pkg); pk != nil {
+				if g, ok := pk.Members[key].(*ssa.Global); ok {
+					if init := pk.Func("init"); init != nil {
+						for _, b := range init.Blocks {
+							for _, ins := range b.Instrs {
+								if st, ok := ins.(*ssa.Store); ok && st.Addr == g {
+									switch v := st.Val.(type) {
+									case *ssa.Function:
+										w.FnOf[c] = v
+									case *ssa.MakeClosure:
+										w.FnOf[c] = v.Fn.(*ssa.Function)
+									}
+								}
+							}
+						}
+					}
+					if f := w.FnOf[c]; f != nil {
+						w.Contracts[funcKey(f)] = c
+					}
+					return pkg + "." + key
+				}
+			}
 			return ""
 		}
 		w.FnOf[c] = fn
